@@ -16,7 +16,7 @@
 (*       at the begin of the rotation), the                                 *)
 (*       naming state keeps what was assigned before the failing effect     *)
 (*       (NumbersDirect: idx+1, Timestamps: the new timestamp)              *)
-(* Scope: no cleanup, no symlink (their effects are not modelled here).     *)
+(* Scope: synchronous cleanup included (remove, compress); no symlink.      *)
 (*                                                                         *)
 (* Model checking mode: a fault plan (from, burst) as the harness uses it - *)
 (* the effects number from..from+burst-1 of the whole history fail. TLC     *)
@@ -40,8 +40,57 @@ VARIABLES nfx,      \* number of effects performed so far in the history
 fvars == <<vars, nfx, plan, lostw, rep, lastfx, recov>>
 
 Fl(FL, j) == j <= Len(FL) /\ FL[j]
-\* model checking mode: the failure flags of the next 8 effects according to the plan
-PlanFL == [j \in 1..8 |-> plan.from > 0 /\ nfx + j >= plan.from /\ nfx + j < plan.from + plan.burst]
+\* model checking mode: the failure flags of the next 16 effects according to the plan
+PlanFL == [j \in 1..16 |-> plan.from > 0 /\ nfx + j >= plan.from /\ nfx + j < plan.from + plan.burst]
+
+(***************************************************************************)
+(* remove_or_compress_too_old_logfiles_impl with failing effects: returns   *)
+(* [ok, d, f, used, fx]; j = effects used so far; the first failing effect  *)
+(* ends the cleanup (`?`), what was done before stays done.                 *)
+(*  stage 1: the unfinished .gz files of interrupted compressions (a .gz    *)
+(*           next to its original) are removed: fs:remove each              *)
+(*  stage 2: the listing (without them): fs:remove beyond k+m; beyond k a   *)
+(*           plain file is compressed: fs:gz_create (creates the .gz),      *)
+(*           fs:gz_copy, fs:gz_finish, fs:remove_orig                       *)
+(* A .gz left next to its original has undefined content here (<<>>): the   *)
+(* trace specification compares the directory without such twins.           *)
+(***************************************************************************)
+NoClean(c) == [c EXCEPT !.clean = FALSE]
+RECURSIVE RmTwinsF(_, _, _, _, _)
+RmTwinsF(d, L, FL, j, fx) ==
+    IF L = <<>> THEN [ok |-> TRUE, d |-> d, used |-> j, fx |-> fx]
+    ELSE IF Fl(FL, j + 1) THEN [ok |-> FALSE, d |-> d, used |-> j + 1, fx |-> Append(fx, "fs:remove")]
+    ELSE RmTwinsF(Unlink(d, Head(L)), Tail(L), FL, j + 1, Append(fx, "fs:remove"))
+
+RECURSIVE CleanFromF(_, _, _, _, _, _, _, _, _)
+CleanFromF(d, f, L, idx, k, m, FL, j, fx) ==
+    IF L = <<>> THEN [ok |-> TRUE, d |-> d, f |-> f, used |-> j, fx |-> fx]
+    ELSE LET n == Head(L) IN
+         IF idx >= k + m
+         THEN IF Fl(FL, j + 1) THEN [ok |-> FALSE, d |-> d, f |-> f, used |-> j + 1, fx |-> Append(fx, "fs:remove")]
+              ELSE CleanFromF(Unlink(d, n), f, Tail(L), idx + 1, k, m, FL, j + 1, Append(fx, "fs:remove"))
+         ELSE IF idx >= k /\ ~n.z
+              THEN LET i   == FreshIno(f)
+                       dz  == [x \in DOMAIN d \cup {Gz(n)} |-> IF x = Gz(n) THEN i ELSE d[x]]          \* the .gz beside n
+                       fe  == [x \in DOMAIN f \cup {i} |-> IF x = i THEN [ids |-> <<>>, bt |-> 0] ELSE f[x]]
+                       ff  == [x \in DOMAIN f \cup {i} |-> IF x = i THEN [ids |-> f[d[n]].ids, bt |-> 0] ELSE f[x]]
+                       g1  == Append(fx, "fs:gz_create")
+                       g2  == Append(g1, "fs:gz_copy")
+                       g3  == Append(g2, "fs:gz_finish")
+                       g4  == Append(g3, "fs:remove_orig")
+                   IN IF Fl(FL, j + 1) THEN [ok |-> FALSE, d |-> d, f |-> f, used |-> j + 1, fx |-> g1]
+                      ELSE IF Fl(FL, j + 2) THEN [ok |-> FALSE, d |-> dz, f |-> fe, used |-> j + 2, fx |-> g2]
+                      ELSE IF Fl(FL, j + 3) THEN [ok |-> FALSE, d |-> dz, f |-> fe, used |-> j + 3, fx |-> g3]
+                      ELSE IF Fl(FL, j + 4) THEN [ok |-> FALSE, d |-> dz, f |-> ff, used |-> j + 4, fx |-> g4]
+                      ELSE CleanFromF(Unlink(dz, n), ff, Tail(L), idx + 1, k, m, FL, j + 4, g4)
+              ELSE CleanFromF(d, f, Tail(L), idx + 1, k, m, FL, j, fx)
+
+CleanupF(c, d, f, FL, j0) ==
+    IF ~c.clean THEN [ok |-> TRUE, d |-> d, f |-> f, used |-> j0, fx |-> <<>>]
+    ELSE LET twins == SelectSeq(SortDesc(Zipped(c, d)), LAMBDA n : UnGz(n) \in DOMAIN d)
+             t1 == RmTwinsF(d, twins, FL, j0, <<>>)
+         IN IF ~t1.ok THEN [ok |-> FALSE, d |-> t1.d, f |-> f, used |-> t1.used, fx |-> t1.fx]
+            ELSE CleanFromF(t1.d, f, Listing(c, t1.d), 0, KEff(c), c.m, FL, t1.used, t1.fx)
 
 (***************************************************************************)
 (* initialize(): returns [ok, d, f, w, legit, used, fx]                     *)
@@ -66,8 +115,11 @@ InitializeF(c, d, f, t, FL) ==
                                Rename(d, Cur, CollisionFree(d, Key(c, date))).d
                           [] OTHER -> d
               IN [ok |-> FALSE, d |-> IF ren THEN d1 ELSE d, f |-> f, w |-> w, legit |-> {}, used |-> nren + 1, fx |-> fxs]
-         ELSE LET i == Initialize(c, d, f, t) IN
-              [ok |-> TRUE, d |-> i.d, f |-> i.f, w |-> i.w, legit |-> i.legit, used |-> nren + 1, fx |-> fxs]
+         ELSE LET i  == Initialize(NoClean(c), d, f, t)
+                  cl == CleanupF(c, i.d, i.f, FL, nren + 1)
+              IN \* a failing cleanup makes initialize() fail: the state stays Initial although the file is open(ed)
+                 [ok |-> cl.ok, d |-> cl.d, f |-> cl.f, w |-> IF cl.ok THEN i.w ELSE w, legit |-> i.legit, used |-> cl.used,
+                  fx |-> fxs \o cl.fx]
 
 (***************************************************************************)
 (* mount_next_linewriter_if_necessary: returns [ok, d, f, w, used, fx];     *)
@@ -84,26 +136,34 @@ RotateF(c, d, fa, wa, t, FL, j0) ==
                     w1 == [wr EXCEPT !.idx = IF rn.ok THEN @ + 1 ELSE @] IN
                 IF Fl(FL, j0 + 2)
                 THEN [ok |-> FALSE, d |-> rn.d, f |-> f0, w |-> w1, used |-> j0 + 2, fx |-> <<"fs:rename", "fs:open">>]
-                ELSE LET r == Rotate(c, d, f0, wr, t) IN
-                     [ok |-> TRUE, d |-> r.d, f |-> r.f, w |-> r.w, used |-> j0 + 2, fx |-> <<"fs:rename", "fs:open">>]
+                ELSE LET r  == Rotate(NoClean(c), d, f0, wr, t)
+                         cl == CleanupF(c, r.d, r.f, FL, j0 + 2) IN
+                     \* (a failing cleanup is reported; the writer has been replaced before)
+                     [ok |-> cl.ok, d |-> cl.d, f |-> cl.f, w |-> r.w, used |-> cl.used, fx |-> <<"fs:rename", "fs:open">> \o cl.fx]
       [] c.naming = "NumD" ->
            IF Fl(FL, j0 + 1)
            THEN [ok |-> FALSE, d |-> d, f |-> f0, w |-> [wr EXCEPT !.idx = @ + 1], used |-> j0 + 1, fx |-> <<"fs:open">>]
-           ELSE LET r == Rotate(c, d, f0, wr, t) IN
-                [ok |-> TRUE, d |-> r.d, f |-> r.f, w |-> r.w, used |-> j0 + 1, fx |-> <<"fs:open">>]
+           ELSE LET r  == Rotate(NoClean(c), d, f0, wr, t)
+                         cl == CleanupF(c, r.d, r.f, FL, j0 + 1) IN
+                     \* (a failing cleanup is reported; the writer has been replaced before)
+                     [ok |-> cl.ok, d |-> cl.d, f |-> cl.f, w |-> r.w, used |-> cl.used, fx |-> <<"fs:open">> \o cl.fx]
       [] c.naming = "Ts" ->
            IF Fl(FL, j0 + 1) THEN [ok |-> FALSE, d |-> d, f |-> f0, w |-> wr, used |-> j0 + 1, fx |-> <<"fs:rename">>]
            ELSE LET rn == Rename(d, Cur, CollisionFree(d, Key(c, wr.ts))) IN
                 IF Fl(FL, j0 + 2)
                 THEN [ok |-> FALSE, d |-> rn.d, f |-> f0, w |-> [wr EXCEPT !.ts = t], used |-> j0 + 2,
                       fx |-> <<"fs:rename", "fs:open">>]
-                ELSE LET r == Rotate(c, d, f0, wr, t) IN
-                     [ok |-> TRUE, d |-> r.d, f |-> r.f, w |-> r.w, used |-> j0 + 2, fx |-> <<"fs:rename", "fs:open">>]
+                ELSE LET r  == Rotate(NoClean(c), d, f0, wr, t)
+                         cl == CleanupF(c, r.d, r.f, FL, j0 + 2) IN
+                     \* (a failing cleanup is reported; the writer has been replaced before)
+                     [ok |-> cl.ok, d |-> cl.d, f |-> cl.f, w |-> r.w, used |-> cl.used, fx |-> <<"fs:rename", "fs:open">> \o cl.fx]
       [] c.naming = "TsD" ->
            IF Fl(FL, j0 + 1)
            THEN [ok |-> FALSE, d |-> d, f |-> f0, w |-> [wr EXCEPT !.ts = t], used |-> j0 + 1, fx |-> <<"fs:open">>]
-           ELSE LET r == Rotate(c, d, f0, wr, t) IN
-                [ok |-> TRUE, d |-> r.d, f |-> r.f, w |-> r.w, used |-> j0 + 1, fx |-> <<"fs:open">>]
+           ELSE LET r  == Rotate(NoClean(c), d, f0, wr, t)
+                         cl == CleanupF(c, r.d, r.f, FL, j0 + 1) IN
+                     \* (a failing cleanup is reported; the writer has been replaced before)
+                     [ok |-> cl.ok, d |-> cl.d, f |-> cl.f, w |-> r.w, used |-> cl.used, fx |-> <<"fs:open">> \o cl.fx]
 
 (***************************************************************************)
 (* Actions                                                                 *)
@@ -130,7 +190,8 @@ WriteFL(len, FL) ==
                   /\ dir' = i0.d /\ files' = i0.f /\ w' = w
                   /\ lostw' = lostw \cup {id} /\ rep' = <<"Write">> /\ lastfx' = i0.fx /\ nfx' = nfx + i0.used
                   /\ recov' = 0
-                  /\ gone' = gone \cup (AllIdsIn(dir, files) \ AllIdsIn(i0.d, i0.f)) /\ okgone' = okgone
+                  /\ gone' = gone \cup (AllIdsIn(dir, files) \ AllIdsIn(i0.d, i0.f))
+                  /\ okgone' = okgone \cup (IF cfg.clean THEN AllIdsIn(dir, files) \ AllIdsIn(i0.d, i0.f) ELSE {})
              ELSE LET due == cfg.rot /\ RotationNecessary(cfg, i0.w, clk)
                       r0 == IF due THEN RotateF(cfg, i0.d, i0.f, i0.w, clk, FL, i0.used)
                             ELSE [ok |-> TRUE, d |-> i0.d, f |-> i0.f, w |-> i0.w, used |-> i0.used, fx |-> <<>>]
@@ -147,6 +208,7 @@ WriteFL(len, FL) ==
                      /\ recov' = IF wfail \/ ~r0.ok THEN 0 ELSE recov + 1
                      /\ gone' = gone \cup (AllIdsIn(dir, files) \ AllIdsIn(r0.d, IF wfail THEN r0.f ELSE bw.f))
                      /\ okgone' = okgone \cup i0.legit
+                                   \cup (IF cfg.clean THEN AllIdsIn(dir, files) \ AllIdsIn(r0.d, IF wfail THEN r0.f ELSE bw.f) ELSE {})
     /\ UNCHANGED <<clk, cfg, runs, trigs, advs, forced, extgone, exts, moved, olddirs, sws, needReopen, hist, plan>>
 
 \* trigger_rotation: forced rotation; before the first write or without rotation nothing happens
@@ -157,8 +219,10 @@ TriggerFL(FL) ==
        /\ rep' = IF r0.ok THEN <<>> ELSE <<"ret:err">>
        /\ lastfx' = r0.fx /\ nfx' = nfx + r0.used
        /\ recov' = IF r0.ok THEN recov ELSE 0
+       /\ gone' = gone \cup (AllIdsIn(dir, FlushInto(files, w)) \ AllIdsIn(r0.d, r0.f))
+       /\ okgone' = okgone \cup (IF cfg.clean THEN AllIdsIn(dir, FlushInto(files, w)) \ AllIdsIn(r0.d, r0.f) ELSE {})
     /\ trigs' = trigs + 1 /\ forced' = forced \cup {Len(logged)}
-    /\ UNCHANGED <<clk, cfg, logged, wt, runs, advs, gone, okgone, extgone, exts, moved, olddirs, sws, needReopen, hist, plan, lostw>>
+    /\ UNCHANGED <<clk, cfg, logged, wt, runs, advs, extgone, exts, moved, olddirs, sws, needReopen, hist, plan, lostw>>
 
 TriggerNoopF == Quiet(TriggerNoop)
 
@@ -191,7 +255,10 @@ FSpec == FInit /\ [][FNext]_fvars
 Kept == SelectSeq(Acc, LAMBDA p : p[1] \notin lostw /\ p[1] \notin gone)
 \* no previously written record is lost, only records whose own write failed are missing, order kept
 \* (gone = the documented truncation of a non-rotated file re-opened without append)
-C19_OnlyOwnFailureMissing == Stream(ObsFiles) \o BufRecs = Kept
+\* (the unfinished .gz that a failed compression leaves next to its original is not part of the stream)
+C19_OnlyOwnFailureMissing == Stream(Untwin(ObsFiles)) \o BufRecs = Kept
+\* a rotated name is both plain and compressed only as such a twin: the original is complete and comes first
+C19_TwinsOnlyUnfinished == NoTwin(Untwin(ObsFiles))
 C19_NoDestruction == gone \subseteq okgone
 \* once operations succeed again, rotation resumes: after a write without any failure the current file held, before
 \* that record, no more than the limit
